@@ -11,7 +11,11 @@ package main
 // for-init loops, for-in over an array with k, v, function literals bound to a
 // variable and called later (closures reading and writing a, b, c, m, arr and
 // their own parameter), a closure nested in a closure, a function returning a
-// closure over its parameter (the closure outlives the call), bounded recursion
+// closure over its parameter (the closure outlives the call), closures used as
+// first-class VALUES (a writing closure f := func(p) { x += 1; return x } that is
+// copied with copy(f), stored into and called out of a container, or passed
+// to a function that calls it; original and second route both called, in both
+// orders), bounded recursion
 // through the defining variable, a reference to a name that is out of scope
 // (compile error in every placement) and - inside loops - a closure over a loop
 // variable stored into arr and possibly called after the loop (the documented
@@ -48,16 +52,37 @@ type fam struct {
 	pendingDepth int
 	fnDepth      int  // block depth of the body of the innermost function
 	fGetter      bool // the visible f returns a closure over its parameter (call sites call the result)
+	fBump        bool // the visible f is the writing closure func(p) { x += 1; return x } (it ignores its argument)
+	// second route to the writing closure, reached through the callable name "h":
+	// "copy" h := copy(f) | "store" m.n = f, called as m.n(1) | "apply" h := func(q) { return q(1) }, called as h(f)
+	hKind string
 }
 
 // call builds a call of a visible function with a plain argument; calling the
-// pending function settles it. A function that returns a closure over its
-// parameter (the closure outlives the frame that declared the variable) has
-// the result called on the spot.
-func (g *fam) call() gen.Expr {
-	n := g.pick(g.fns)
+// pending function settles it (forced: the pending function is the callee). A
+// function that returns a closure over its parameter (the closure outlives the
+// frame that declared the variable) has the result called on the spot. The
+// writing closure ignores its argument, so it is always called with 1; its
+// second route "h" is called in the form its kind requires.
+func (g *fam) call(forced bool) gen.Expr {
+	var n string
+	if forced {
+		n = g.pending
+	} else {
+		n = g.pick(g.fns)
+	}
 	if n == g.pending {
 		g.pending = ""
+	}
+	switch {
+	case n == hName && g.hKind == "apply":
+		return gen.C(gen.I(hName), gen.I(fnNames[0]))
+	case n == hName && g.hKind == "store":
+		return gen.C(&gen.Sel{X: gen.I("m"), Name: "n"}, gen.N("1"))
+	case n == hName:
+		return gen.C(gen.I(hName), gen.N("1"))
+	case n == fnNames[0] && g.fBump:
+		return gen.C(gen.I(n), gen.N("1"))
 	}
 	c := gen.C(gen.I(n), g.atom())
 	if n == fnNames[0] && g.fGetter {
@@ -66,14 +91,20 @@ func (g *fam) call() gen.Expr {
 	return c
 }
 
+// hName is the callable name of the second route to the writing closure.
+const hName = "h"
+
 type famState struct {
-	rd, wr, inc, fns []string
-	alias, fGetter   bool
+	rd, wr, inc, fns      []string
+	alias, fGetter, fBump bool
+	hKind                 string
 }
 
-func (g *fam) save() famState { return famState{g.rd, g.wr, g.inc, g.fns, g.alias, g.fGetter} }
+func (g *fam) save() famState {
+	return famState{g.rd, g.wr, g.inc, g.fns, g.alias, g.fGetter, g.fBump, g.hKind}
+}
 func (g *fam) restore(s famState) {
-	g.rd, g.wr, g.inc, g.fns, g.alias, g.fGetter = s.rd, s.wr, s.inc, s.fns, s.alias, s.fGetter
+	g.rd, g.wr, g.inc, g.fns, g.alias, g.fGetter, g.fBump, g.hKind = s.rd, s.wr, s.inc, s.fns, s.alias, s.fGetter, s.fBump, s.hKind
 }
 
 func with(xs []string, more ...string) []string {
@@ -180,7 +211,7 @@ func (g *fam) rhs() gen.Expr {
 	case "arrvar":
 		return &gen.Index{X: gen.I("arr"), I: gen.I(g.pick(g.rd))}
 	case "call":
-		return g.call()
+		return g.call(false)
 	default:
 		return gen.C(arr0())
 	}
@@ -253,7 +284,9 @@ func (g *fam) body(loopVars []string) []gen.Stmt {
 		var defNames []string
 		var kinds []string
 		fname := ""
+		forced := false
 		if g.pending != "" && g.budget <= 1 && has(g.fns, g.pending) {
+			forced = true
 			if g.pendingDepth != g.depth {
 				kinds = append(kinds, "stop")
 			}
@@ -291,6 +324,10 @@ func (g *fam) body(loopVars []string) []gen.Stmt {
 					kinds = append(kinds, "ifelse")
 				}
 			}
+			// the writing closure used as a value: right after its definition, in the outermost block only
+			if g.fBump && g.hKind == "" && g.depth == 0 && g.fdepth == 0 && len(out) > 0 && isFuncDef(out[len(out)-1], fnNames[0]) {
+				kinds = append(kinds, "fcopy", "fstore", "fapply")
+			}
 			if g.fdepth < len(fnNames) {
 				fname = fnNames[g.fdepth]
 				// a function is defined at the head of its block (only definitions may precede it)
@@ -304,10 +341,11 @@ func (g *fam) body(loopVars []string) []gen.Stmt {
 		if k == "stop" {
 			break
 		}
-		if k != "fdef" && k != "escape" {
+		free := k == "fdef" || k == "escape" || k == "fcopy" || k == "fstore" || k == "fapply"
+		if !free {
 			g.budget--
 		}
-		if k != "fdef" && k != "define" {
+		if !free && k != "define" || k == "escape" {
 			plainSeen = true
 		}
 		switch k {
@@ -358,10 +396,26 @@ func (g *fam) body(loopVars []string) []gen.Stmt {
 				g.alias = isSel && g.lean < 2
 			}
 		case "call":
-			out = append(out, &gen.ExprStmt{X: g.call()})
+			out = append(out, &gen.ExprStmt{X: g.call(forced)})
 		case "assigncall":
 			v := gen.I(g.pick(g.wr))
-			out = append(out, gen.Set(v, g.call()))
+			out = append(out, gen.Set(v, g.call(forced)))
+		case "fcopy", "fstore", "fapply":
+			// a second route to the writing closure; it must be used (pending)
+			f := fnNames[0]
+			switch k {
+			case "fcopy":
+				g.hKind = "copy"
+				out = append(out, gen.Def(hName, gen.C(gen.I("copy"), gen.I(f))))
+			case "fstore":
+				g.hKind = "store"
+				out = append(out, gen.Set(&gen.Sel{X: gen.I("m"), Name: "n"}, gen.I(f)))
+			case "fapply":
+				g.hKind = "apply"
+				out = append(out, gen.Def(hName, &gen.FuncLit{Params: []string{"q"}, Body: []gen.Stmt{&gen.Return{X: gen.C(gen.I("q"), gen.N("1"))}}}))
+			}
+			g.fns = with(g.fns, hName)
+			g.pending, g.pendingDepth = hName, g.depth
 		case "undeclared":
 			// c is not in scope here: a compile error wherever the program is placed
 			g.undecl = true
@@ -428,6 +482,9 @@ func (g *fam) body(loopVars []string) []gen.Stmt {
 				}
 			}
 			// (outermost functions without body only) a closure over the parameter, which outlives the call
+			if g.fdepth == 1 && len(fb) == 0 && g.depth == 1 {
+				rk = append(rk, "bump")
+			}
 			if g.fdepth == 1 && g.lean < 2 && len(fb) == 0 {
 				rk = append(rk, "getter")
 				if g.lean < 1 {
@@ -440,8 +497,16 @@ func (g *fam) body(loopVars []string) []gen.Stmt {
 					rk = []string{"call"} // the nested function has not been called yet
 				}
 			}
-			getter := false
+			getter, bump := false, false
 			switch g.pick(rk) {
+			case "bump":
+				// the writing closure: x is a or (if visible) the body-declared c
+				bump = true
+				x := "a"
+				if has(s.wr, "c") && g.ch.Flip() {
+					x = "c"
+				}
+				fb = append(fb, &gen.Assign{LHS: gen.I(x), Op: "+=", RHS: gen.N("1")}, &gen.Return{X: gen.I(x)})
 			case "getter":
 				getter = true
 				fb = append(fb, &gen.Return{X: &gen.FuncLit{Body: []gen.Stmt{&gen.Return{X: gen.I(param)}}}})
@@ -462,15 +527,30 @@ func (g *fam) body(loopVars []string) []gen.Stmt {
 			out = append(out, gen.Def(fname, &gen.FuncLit{Params: []string{param}, Body: fb}))
 			g.fns = with(g.fns, fname)
 			if fname == fnNames[0] {
-				g.fGetter = getter
+				g.fGetter, g.fBump, g.hKind = getter, bump, ""
+				g.fns = without(g.fns, hName)
 			}
 			g.pending, g.pendingDepth = outerPending, outerPendingDepth
-			if cost > 0 || g.lean > 3 || getter {
+			if cost > 0 || g.lean > 3 || getter || bump {
 				g.pending, g.pendingDepth = fname, g.depth
 			}
 		}
 	}
 	return out
+}
+
+// isFuncDef recognises `name := func...`.
+func isFuncDef(s gen.Stmt, name string) bool {
+	a, ok := s.(*gen.Assign)
+	if !ok || a.Op != ":=" {
+		return false
+	}
+	id, ok := a.LHS.(*gen.Ident)
+	if !ok || id.Name != name {
+		return false
+	}
+	_, ok = a.RHS.(*gen.FuncLit)
+	return ok
 }
 
 // Family generates one body per chooser path.
